@@ -51,7 +51,10 @@ DesignLeafTable(ast, ng, t) ==
           IN IF fin.st = "match" THEN [j \in 1..(2 * ng + 2) |-> IF fin.saves[j] = -1 THEN NoCap ELSE CharPos(t, fin.saves[j])]
              ELSE IF fin.st = "nomatch" THEN <<>> ELSE ErrV
    IN TLCEval([q \in (0..Len(t)) \X BOOLEAN |-> Leaf(q[1], q[2])])
-LeafTable(ast, ng, t) == IF Excluded(ast) /\ Compile(ast, ng).err = "" THEN DesignLeafTable(ast, ng, t) ELSE RefLeafTable(ast, ng, t)
+\* (only when no DELEGATED piece is itself of the class: the regex crate's treatment of captures inside a nullable loop is not RefSem either)
+DesignJudgeable(ast, ng) == LET pr == Compile(ast, ng) IN
+                            pr.err = "" /\ \A j \in 1..Len(pr.p) : pr.p[j].op = "Delegate" => ~Excluded_F1(pr.p[j].ast)
+LeafTable(ast, ng, t) == IF Excluded(ast) THEN DesignLeafTable(ast, ng, t) ELSE RefLeafTable(ast, ng, t)
 
 RECURSIVE Flat(_, _, _)
 Flat(sp, o, j) == IF j > Len(sp) THEN <<>> ELSE <<o[sp[j][1]], o[sp[j][2]]>> \o Flat(sp, o, j + 1)
@@ -242,7 +245,7 @@ TStep ==
       IF c.st # "ok"
       THEN /\ ncerr' = ncerr + 1 /\ UNCHANGED <<nok, nrej, nexcl, nitems, npos, nerrh>>
            /\ Emit("CERR", [id |-> c.id, pat |-> c.pat, ek |-> c.ek])
-      ELSE IF (Excluded(c.ast) /\ (Part = "x4" \/ Compile(c.ast, c.ng).err # "")) \/ (Part = "x4" /\ c.r_st # "ok")
+      ELSE IF (Excluded(c.ast) /\ (Part = "x4" \/ ~DesignJudgeable(c.ast, c.ng))) \/ (Part = "x4" /\ c.r_st # "ok")
       THEN /\ nexcl' = nexcl + 1 /\ UNCHANGED <<nok, nrej, ncerr, nitems, npos, nerrh>>
       ELSE LET v == TLCEval(Verdict(c))
            IN /\ nitems' = nitems + v[4] /\ npos' = npos + (IF v[4] > 0 THEN 1 ELSE 0) /\ nerrh' = nerrh + v[5]
